@@ -324,3 +324,39 @@ pub fn group(cfg: &WxmlCfg) -> BoxedStrategy<Group> {
         })
         .boxed()
 }
+
+/// Decorate children of elements with `slot:name` / `slot:name="alias"` value references (compile-only checks: the stub
+/// DOM has no dynamic slots, so rendering checks do not use this).
+pub fn add_slot_refs(nodes: &mut Vec<Node>, rng: &mut crate::util::Rng) {
+    const NAMES: &[&str] = &["sa", "sb", "s-c", "sd", "item"];
+    for n in nodes.iter_mut() {
+        if let Node::El(e) = n {
+            let decorate = rng.chance(1, 2);
+            for k in e.kids.iter_mut() {
+                let refs = match k {
+                    Node::El(c) => Some(&mut c.slot_refs),
+                    Node::Block(b) => Some(&mut b.slot_refs),
+                    _ => None,
+                };
+                if let (true, Some(refs)) = (decorate, refs) {
+                    let cnt = 1 + rng.below(3) as usize;
+                    for _ in 0..cnt {
+                        let name = NAMES[rng.below(NAMES.len() as u64) as usize].to_string();
+                        if refs.iter().any(|r: &SlotRef| r.name == name) {
+                            continue;
+                        }
+                        let alias = if rng.chance(1, 3) { Some(format!("al{}", rng.below(3))) } else { None };
+                        refs.push(SlotRef { name, alias });
+                    }
+                }
+            }
+            add_slot_refs(&mut e.kids, rng);
+        } else if let Node::For(f) = n {
+            add_slot_refs(&mut f.kids, rng);
+        } else if let Node::If(bs) = n {
+            for b in bs.iter_mut() {
+                add_slot_refs(&mut b.kids, rng);
+            }
+        }
+    }
+}
